@@ -647,6 +647,21 @@ fn dump_const<'tcx>(tcx: TyCtxt<'tcx>, did: DefId, out: &mut Vec<String>) {
         }
         Some((inner.inspect_with_uninit_and_ptr_outside_interpreter(off..off + len).to_vec(), !inner.provenance().ptrs().is_empty()))
     };
+    // layout of array elements (field offsets are not guaranteed to follow declaration order)
+    if let ty::Array(elem, _) = ty.kind() {
+        if let Ok(el) = tcx.layout_of(env.as_query_input(*elem)) {
+            let n = el.fields.count();
+            let mut offs = Vec::new();
+            let mut sizes = Vec::new();
+            if matches!(elem.kind(), ty::Tuple(_) | ty::Adt(..)) && !matches!(el.fields, rustc_abi::FieldsShape::Array { .. }) {
+                for i in 0..n {
+                    offs.push(format!("{}", el.fields.offset(i).bytes()));
+                    sizes.push(format!("{}", el.field(&rustc_middle::ty::layout::LayoutCx::new(tcx, env), i).size.bytes()));
+                }
+            }
+            let _ = write!(s, ",\"elem\":{{\"ty\":{},\"size\":{},\"offsets\":{},\"sizes\":{}}}", js(&tystr(*elem)), el.size.bytes(), jarr(&offs), jarr(&sizes));
+        }
+    }
     if matches!(kind, DefKind::Static { .. }) {
         if let Ok(alloc) = tcx.eval_static_initializer(did) {
             if let Some((b, hp)) = read(alloc, 0, alloc.inner().len()) {
